@@ -1325,7 +1325,7 @@ Proof.
   assert (Hcs : cs (init d f) <= 8) by (cbn [init cs]; lia).
   destruct (tracked t) eqn:Ht.
   - pose proof (phase1_post t (init d f) Ht Hcs) as HP. cbn [init dk] in HP.
-    destruct (phase1 t (init d f)) as [[| |] s0]; cbn [fst snd] in HP.
+    unfold Post in HP. destruct (phase1 t (init d f)) as [[| |] s0]; cbn [fst snd] in HP.
     + destruct HP as [[_ [_ Hgo]]|[Hc [Hk _]]]; [contradiction|].
       rewrite (phase2_fail _ _ _ _ E Hne), Hk, !cnt_upd. rewrite Hneg. lia.
     + inversion E; subst o1 s1. destruct HP as [[Hc [Hk _]]|[Hc [Hk [Hgo|[_ Hf]]]]]; [| discriminate |].
